@@ -47,3 +47,8 @@ pub(crate) fn set_strong(r: &Region, n: usize) {
 pub(crate) fn set_geom(r: &Region, start: usize, len: usize, reserved: usize) {
     crate::region_metadata::verif_meta::set_geom(r.0.meta.verif_peek(), start, len, reserved);
 }
+
+/// The private `write_with` (what `write`, `write_at`, `truncate_write` forward to, verbatim).
+pub(crate) fn call_write_with(r: &Region, data: &[u8], at: Option<usize>, truncate: bool) -> Result<()> {
+    r.write_with(data, at, truncate)
+}
